@@ -5280,9 +5280,10 @@ class Arc(Curve):
 
             return self._points_numpy(np.array(positions))
         except ImportError:
-            if self.start == self.end and self.sweep == 0:
-                # This is equivalent of omitting the segment
-                return [self.start] * len(positions)
+            if self.sweep == 0:
+                # Coincident endpoints: equivalent of omitting the segment.
+                # A zero radius: the straight line between the endpoints.
+                return [Point.towards(self.start, self.end, pos) for pos in positions]
 
             start_t = self.get_start_t()
             return [
@@ -5364,10 +5365,8 @@ class Arc(Curve):
         approximation, as for cubic Bézier curves.
         """
         if self.sweep == 0:
-            return 0
-        if self.start == self.end and self.sweep == 0:
-            # This is equivalent of omitting the segment
-            return 0
+            # Coincident endpoints draw nothing, a zero radius draws the straight line.
+            return Point.distance(self.start, self.end)
         a = self.rx
         b = self.ry
         d = abs(a - b)
@@ -5493,6 +5492,8 @@ class Arc(Curve):
             sweep_limit = tau / 12.0
             arc_required = int(ceil(abs(self.sweep) / sweep_limit))
         if arc_required == 0:
+            if self.sweep == 0 and self.start != self.end:
+                yield QuadraticBezier(self.start, self.start, self.end)  # zero radius: the line
             return
         t_slice = self.sweep / float(arc_required)
 
@@ -5528,6 +5529,10 @@ class Arc(Curve):
             sweep_limit = tau / 12.0
             arc_required = int(ceil(abs(self.sweep) / sweep_limit))
         if arc_required == 0:
+            if self.sweep == 0 and self.start != self.end:
+                yield CubicBezier(
+                    self.start, self.start, self.end, self.end
+                )  # zero radius: the line
             return
         t_slice = self.sweep / float(arc_required)
 
@@ -5701,7 +5706,12 @@ class Arc(Curve):
         Code from: https://github.com/mathandy/svgpathtools
         """
         if self.sweep == 0:
-            return self.start.x, self.start.y, self.end.x, self.end.y
+            return (
+                min(self.start.x, self.end.x),
+                min(self.start.y, self.end.y),
+                max(self.start.x, self.end.x),
+                max(self.start.y, self.end.y),
+            )
         phi = self.get_rotation().as_radians
         if cos(phi) == 0:
             atan_x = tau / 4.0
